@@ -51,6 +51,9 @@ func convertToComplex(other Object) (Complex, bool) {
 		return Complex(complex(b, 0)), true
 	case Int:
 		return Complex(complex(float64(b), 0)), true
+	case *BigInt:
+		x, err := b.Float()
+		return Complex(complex(x, 0)), err == nil
 	case Bool:
 		if b {
 			return Complex(1), true
@@ -85,7 +88,7 @@ func (a Complex) M__add__(other Object) (Object, error) {
 	if b, ok := convertToComplex(other); ok {
 		return Complex(a + b), nil
 	}
-	return NotImplemented, nil
+	return floatNotImplemented(other)
 }
 
 func (a Complex) M__radd__(other Object) (Object, error) {
@@ -100,14 +103,14 @@ func (a Complex) M__sub__(other Object) (Object, error) {
 	if b, ok := convertToComplex(other); ok {
 		return Complex(a - b), nil
 	}
-	return NotImplemented, nil
+	return floatNotImplemented(other)
 }
 
 func (a Complex) M__rsub__(other Object) (Object, error) {
 	if b, ok := convertToComplex(other); ok {
 		return Complex(b - a), nil
 	}
-	return NotImplemented, nil
+	return floatNotImplemented(other)
 }
 
 func (a Complex) M__isub__(other Object) (Object, error) {
@@ -118,7 +121,7 @@ func (a Complex) M__mul__(other Object) (Object, error) {
 	if b, ok := convertToComplex(other); ok {
 		return Complex(a * b), nil
 	}
-	return NotImplemented, nil
+	return floatNotImplemented(other)
 }
 
 func (a Complex) M__rmul__(other Object) (Object, error) {
@@ -133,14 +136,14 @@ func (a Complex) M__truediv__(other Object) (Object, error) {
 	if b, ok := convertToComplex(other); ok {
 		return Complex(a / b), nil
 	}
-	return NotImplemented, nil
+	return floatNotImplemented(other)
 }
 
 func (a Complex) M__rtruediv__(other Object) (Object, error) {
 	if b, ok := convertToComplex(other); ok {
 		return Complex(b / a), nil
 	}
-	return NotImplemented, nil
+	return floatNotImplemented(other)
 }
 
 func (a Complex) M__itruediv__(other Object) (Object, error) {
@@ -156,14 +159,14 @@ func (a Complex) M__floordiv__(other Object) (Object, error) {
 	if b, ok := convertToComplex(other); ok {
 		return complexFloor(a / b), nil
 	}
-	return NotImplemented, nil
+	return floatNotImplemented(other)
 }
 
 func (a Complex) M__rfloordiv__(other Object) (Object, error) {
 	if b, ok := convertToComplex(other); ok {
 		return complexFloor(b / a), nil
 	}
-	return NotImplemented, nil
+	return floatNotImplemented(other)
 }
 
 func (a Complex) M__ifloordiv__(other Object) (Object, error) {
@@ -182,7 +185,7 @@ func (a Complex) M__mod__(other Object) (Object, error) {
 		_, r := complexDivMod(a, b)
 		return r, nil
 	}
-	return NotImplemented, nil
+	return floatNotImplemented(other)
 }
 
 func (a Complex) M__rmod__(other Object) (Object, error) {
@@ -190,7 +193,7 @@ func (a Complex) M__rmod__(other Object) (Object, error) {
 		_, r := complexDivMod(b, a)
 		return r, nil
 	}
-	return NotImplemented, nil
+	return floatNotImplemented(other)
 }
 
 func (a Complex) M__imod__(other Object) (Object, error) {
@@ -202,7 +205,8 @@ func (a Complex) M__divmod__(other Object) (Object, Object, error) {
 		x, y := complexDivMod(a, b)
 		return x, y, nil
 	}
-	return NotImplemented, None, nil
+	res, err := floatNotImplemented(other)
+	return res, None, err
 }
 
 func (a Complex) M__rdivmod__(other Object) (Object, Object, error) {
@@ -210,7 +214,8 @@ func (a Complex) M__rdivmod__(other Object) (Object, Object, error) {
 		x, y := complexDivMod(b, a)
 		return x, y, nil
 	}
-	return NotImplemented, None, nil
+	res, err := floatNotImplemented(other)
+	return res, None, err
 }
 
 func (a Complex) M__pow__(other, modulus Object) (Object, error) {
@@ -220,14 +225,14 @@ func (a Complex) M__pow__(other, modulus Object) (Object, error) {
 	if b, ok := convertToComplex(other); ok {
 		return Complex(cmplx.Pow(complex128(a), complex128(b))), nil
 	}
-	return NotImplemented, nil
+	return floatNotImplemented(other)
 }
 
 func (a Complex) M__rpow__(other Object) (Object, error) {
 	if b, ok := convertToComplex(other); ok {
 		return Complex(cmplx.Pow(complex128(b), complex128(a))), nil
 	}
-	return NotImplemented, nil
+	return floatNotImplemented(other)
 }
 
 func (a Complex) M__ipow__(other, modulus Object) (Object, error) {
